@@ -21,6 +21,9 @@ use std::time::{Duration, Instant};
 const WATCHDOG: Duration = Duration::from_secs(25);
 /// how long a response may take to arrive with no further request sent before that is reported
 const GRACE: Duration = Duration::from_secs(8);
+/// how long after the first sentinel was answered (every earlier frame was read and every inline request answered)
+/// off-reader responses and handler exits may still be outstanding before that is reported
+const AFTER_S1: Duration = Duration::from_secs(10);
 
 #[derive(Clone, Default)]
 struct Counters {
@@ -65,6 +68,7 @@ fn gate_mw<'a>(req: &'a Message, next: Next<'a>) -> Result<Message, RepeError> {
     if req.query == b"/slow" {
         std::thread::sleep(Duration::from_millis(8));
     }
+    let _ = (next.ctx().map(|c| c.is_cancelled()), next.peer().map(|p| p.is_connected()));
     next.run(req)
 }
 
@@ -175,6 +179,7 @@ const EXACT: &[RouteSpec] = &[
     rs("/json_b", HK::Json, 0, true),
     rs("/slow_b", HK::Json, 3, true),
     rs("/panic_b", HK::Json, 4, true),
+    rs("/panic", HK::Json, 4, false),
     rs("/json_ctx", HK::JsonCtx, 0, false),
     rs("/json_ctx_b", HK::JsonCtx, 0, true),
     rs("/push_ctx", HK::JsonCtx, 1, false),
@@ -243,6 +248,8 @@ fn make_router(c: &Counters, wrapped: bool) -> Router {
         let c = c.clone();
         move |ctx: &CallContext, v: Value| {
             c.closure(name);
+            // observers of the connection, read while it is being served
+            let _ = (ctx.is_cancelled(), ctx.peer().map(|p| (p.is_connected(), p.peer_id())), ctx.method().len());
             if name == "/push_ctx" {
                 // re-enters the connection object: pushes a notify to the calling peer while the request is handled
                 if let Some(p) = ctx.peer() {
@@ -281,6 +288,7 @@ fn make_router(c: &Counters, wrapped: bool) -> Router {
     let c_end = c.clone();
     let c_slowb = c.clone();
     let c_panic = c.clone();
+    let c_panic2 = c.clone();
     let mut router = Router::new()
         .with_json("/json", mk("/json", c))
         .with("/alias", mk("/alias", c))
@@ -330,6 +338,14 @@ fn make_router(c: &Counters, wrapped: bool) -> Router {
                 _ => Ok(json!("calm")),
             }
         })
+        .with_json("/panic", move |v| {
+            c_panic2.closure("/panic");
+            match v.get("p").and_then(|p| p.as_str()) {
+                Some("str") => panic!("static str payload"),
+                Some("any") => std::panic::panic_any(7u8),
+                _ => Ok(json!("calm")),
+            }
+        })
         .with_json_ctx_blocking("/json_ctx_b", mkctx("/json_ctx_b", c))
         .with_typed_blocking::<TIn, TOut, _>("/typed_b", mkt("/typed_b", c))
         .with_typed_ctx_blocking::<TIn, TOut, _>("/typed_ctx_b", mktctx("/typed_ctx_b", c))
@@ -350,8 +366,8 @@ struct ReqSpec {
     h: RawHeader,
     query: Vec<u8>,
     body: Vec<u8>,
-    /// WebSocket only: a Ping frame precedes this request
-    ping: bool,
+    /// WebSocket only: this many Ping frames precede this request
+    pings: u32,
 }
 impl ReqSpec {
     fn wire(&self) -> Vec<u8> {
@@ -365,6 +381,30 @@ struct SeqParams {
     pressure: bool,
     /// TCP clients write the pipelined bytes in chunks of this size (0 = one write)
     chunk: usize,
+    /// != 0: every frame is cut at 1..3 PRNG-chosen points (inside the header, at 48, inside query / body) derived
+    /// from this seed; TCP writes the pieces separately, WebSocket sends them as message fragments
+    cut: u64,
+    /// the client does not read for this many milliseconds after it started sending
+    stall: u64,
+}
+
+/// Cut points (byte offsets, ascending, inside 1..len) of one frame for a cut seed.
+fn cut_points(cut: u64, index: usize, h: &RawHeader, len: usize) -> Vec<usize> {
+    if cut == 0 || len < 2 { return Vec::new(); }
+    let mut r = Rng::new(cut ^ ((index as u64 + 1) * 0x9E37_79B9));
+    let q = h.query_length as usize;
+    let n = r.range(1, 3);
+    let mut v: Vec<usize> = (0..n).map(|_| match r.below(6) {
+        0 => r.range(1, 47) as usize,
+        1 => 48,
+        2 if q > 1 => 48 + r.range(1, q as u64 - 1) as usize,
+        3 if len > 48 + q + 1 => 48 + q + r.range(1, (len - 48 - q - 1) as u64) as usize,
+        4 => len - 1,
+        _ => r.range(1, len as u64 - 1) as usize,
+    }).filter(|c| *c >= 1 && *c < len).collect();
+    v.sort();
+    v.dedup();
+    v
 }
 
 // ---- independent BEVE typed-array codec (header byte, compressed size, little-endian payload) ----------
@@ -761,7 +801,7 @@ fn gen_request(r: &mut Rng, id: u64) -> ReqSpec {
         _ => loop {
             let rt = r.pick(EXACT);
             // the sentinel route, the 150 ms route and the panicking route are driven by their own scenarios
-            if !matches!(rt.path, "/__end" | "/slow_b" | "/panic_b") && (rt.path != "/slow" || r.chance(1, 4)) {
+            if !matches!(rt.path, "/__end" | "/slow_b" | "/panic_b" | "/panic") && (rt.path != "/slow" || r.chance(1, 4)) {
                 break rt.path.as_bytes().to_vec();
             }
         },
@@ -790,7 +830,7 @@ fn gen_request(r: &mut Rng, id: u64) -> ReqSpec {
     if r.chance(1, 16) {
         f.h.ec = r.boundary(32) as u32;
     }
-    ReqSpec { h: f.h, query, body, ping: r.chance(1, 12) }
+    ReqSpec { h: f.h, query, body, pings: if r.chance(1, 12) { *r.pick(&[1u32, 1, 2, 9]) } else { 0 } }
 }
 
 fn hout_str(r: &Result<Message, RepeError>) -> String {
@@ -835,8 +875,14 @@ struct Endpoint {
     wrapped: bool,
     addr: std::net::SocketAddr,
     counters: Counters,
+    /// a clone of the router the server dispatches through (observer threads look routes up in it meanwhile)
+    router: Router,
 }
 impl Endpoint {
+    /// endpoints that serve only some sequences (their registry / struct state lags behind the others')
+    fn partial(&self) -> bool {
+        matches!(self.name, "tcpx" | "tcpy" | "tcpz" | "atcpz" | "wsq")
+    }
     /// Events that tell when every dispatched handler has finished: pipeline exits (wrapped) / closure entries (bare).
     fn progress(&self) -> u64 {
         if self.wrapped { self.counters.total_done() } else { self.counters.total_closures() }
@@ -862,19 +908,25 @@ fn start_servers() -> Servers {
     let rt = tokio::runtime::Builder::new_multi_thread().worker_threads(4).enable_all().build().unwrap();
     let mut eps = Vec::new();
     let long = Some(Duration::from_secs(30));
-    for (name, wt, rtm, nodelay, wrapped) in [("tcp", None, None, true, true), ("tcpw", Some(Duration::from_secs(20)), long, true, true), ("tcpx", None, None, false, true), ("tcpn", None, None, true, false)] {
+    let short = Some(Duration::from_millis(300));
+    // knob pairs (read timeout x write timeout x Nagle x middleware): a pairwise covering set; `tcps` has a SHORT read
+    // timeout and serves only the stall scenario
+    for (name, wt, rtm, nodelay, wrapped) in [("tcp", None, None, true, true), ("tcpw", Some(Duration::from_secs(20)), long, true, true), ("tcpx", None, None, false, true), ("tcpn", None, None, true, false),
+        ("tcpy", None, long, false, false), ("tcpz", Some(Duration::from_secs(20)), None, true, false), ("tcps", None, short, true, false)] {
         let c = Counters::default();
         let listener = std::net::TcpListener::bind("127.0.0.1:0").unwrap();
         let addr = listener.local_addr().unwrap();
-        let srv = repe::Server::new(make_router(&c, wrapped)).write_timeout(wt).read_timeout(rtm).tcp_nodelay(nodelay);
+        let router = make_router(&c, wrapped);
+        let srv = repe::Server::new(router.clone()).write_timeout(wt).read_timeout(rtm).tcp_nodelay(nodelay);
         std::thread::spawn(move || {
             let _ = srv.serve(listener);
         });
-        eps.push(Endpoint { name, kind: Kind::Tcp, wrapped, addr, counters: c });
+        eps.push(Endpoint { name, kind: Kind::Tcp, wrapped, addr, counters: c, router });
     }
-    for (name, wt, rtm, wrapped) in [("atcp", None, None, true), ("atcpw", Some(Duration::from_secs(20)), long, true), ("atcpn", None, long, false)] {
+    for (name, wt, rtm, wrapped) in [("atcp", None, None, true), ("atcpw", Some(Duration::from_secs(20)), long, true), ("atcpn", None, long, false), ("atcpz", Some(Duration::from_secs(20)), None, false), ("atcps", None, short, false)] {
         let c = Counters::default();
         let r = make_router(&c, wrapped);
+        let router = r.clone();
         let addr = rt.block_on(async {
             let l = tokio::net::TcpListener::bind("127.0.0.1:0").await.unwrap();
             let a = l.local_addr().unwrap();
@@ -883,11 +935,12 @@ fn start_servers() -> Servers {
             });
             a
         });
-        eps.push(Endpoint { name, kind: Kind::Tcp, wrapped, addr, counters: c });
+        eps.push(Endpoint { name, kind: Kind::Tcp, wrapped, addr, counters: c, router });
     }
     for (name, cap) in [("ws", None), ("wsp", Some(1usize))] {
         let c = Counters::default();
         let r = make_router(&c, true);
+        let router = r.clone();
         let addr = rt.block_on(async {
             let l = tokio::net::TcpListener::bind("127.0.0.1:0").await.unwrap();
             let a = l.local_addr().unwrap();
@@ -902,11 +955,12 @@ fn start_servers() -> Servers {
             });
             a
         });
-        eps.push(Endpoint { name, kind: Kind::Ws, wrapped: true, addr, counters: c });
+        eps.push(Endpoint { name, kind: Kind::Ws, wrapped: true, addr, counters: c, router });
     }
     {
         let c = Counters::default();
         let r = make_router(&c, false);
+        let router = r.clone();
         let addr = rt.block_on(async {
             let l = tokio::net::TcpListener::bind("127.0.0.1:0").await.unwrap();
             let a = l.local_addr().unwrap();
@@ -925,23 +979,30 @@ fn start_servers() -> Servers {
             });
             a
         });
-        eps.push(Endpoint { name: "wsn", kind: Kind::Ws, wrapped: false, addr, counters: c });
+        eps.push(Endpoint { name: "wsn", kind: Kind::Ws, wrapped: false, addr, counters: c, router });
     }
     // `wsb`: a WebSocket server on a runtime whose blocking pool has ONE thread (off-reader handlers queue up)
-    {
+    // `wsq`: bare router, outbound channel of ONE message, unbounded off-reader limit, TWO blocking threads
+    for (name, wrapped, pool) in [("wsb", true, 1usize), ("wsq", false, 2)] {
         let c = Counters::default();
-        let r = make_router(&c, true);
+        let r = make_router(&c, wrapped);
+        let router = r.clone();
         let (tx, rx) = std::sync::mpsc::channel();
         std::thread::spawn(move || {
-            let rt2 = tokio::runtime::Builder::new_multi_thread().worker_threads(2).max_blocking_threads(1).enable_all().build().unwrap();
+            let rt2 = tokio::runtime::Builder::new_multi_thread().worker_threads(2).max_blocking_threads(pool).enable_all().build().unwrap();
             rt2.block_on(async move {
                 let l = tokio::net::TcpListener::bind("127.0.0.1:0").await.unwrap();
                 tx.send(l.local_addr().unwrap()).unwrap();
-                let _ = repe::websocket_server::WebSocketServer::new(r).serve_listener_with_graceful_drain(l, "/repe", std::future::pending::<()>(), Duration::from_secs(1)).await;
+                let s = repe::websocket_server::WebSocketServer::new(r);
+                if wrapped {
+                    let _ = s.serve_listener_with_graceful_drain(l, "/repe", std::future::pending::<()>(), Duration::from_secs(1)).await;
+                } else {
+                    let _ = s.with_outbound_capacity(1).with_offreader_limit(0).serve_listener(l, "/repe").await;
+                }
             });
         });
         let addr = rx.recv().unwrap();
-        eps.push(Endpoint { name: "wsb", kind: Kind::Ws, wrapped: true, addr, counters: c });
+        eps.push(Endpoint { name, kind: Kind::Ws, wrapped, addr, counters: c, router });
     }
     Servers { eps, rt }
 }
@@ -1022,7 +1083,8 @@ fn have_all(frames: &[RawFrame], expect_ids: &[u64]) -> bool {
 /// Raw TCP client: a writer thread sends the pipelined requests (in chunks of `chunk` bytes, 0 = one write) while
 /// this thread reads (so large sequences cannot deadlock on full socket buffers); `read_delay` slows the reader down
 /// per frame (pressure sequences). `expect_events`: progress events (see `Endpoint::progress`) the sequence causes.
-fn run_tcp(ep: &Endpoint, reqs: &[ReqSpec], expect_ids: &[u64], expect_events: u64, read_delay: Duration, chunk: usize) -> TransportRun {
+fn run_tcp(ep: &Endpoint, reqs: &[ReqSpec], expect_ids: &[u64], expect_events: u64, read_delay: Duration, params: SeqParams) -> TransportRun {
+    let (chunk, cut, stall) = (params.chunk, params.cut, params.stall);
     let mut out = TransportRun::default();
     let base = ep.progress();
     let mut s = match std::net::TcpStream::connect(ep.addr) {
@@ -1031,11 +1093,24 @@ fn run_tcp(ep: &Endpoint, reqs: &[ReqSpec], expect_ids: &[u64], expect_events: u
     };
     s.set_nodelay(true).ok();
     let mut wire = Vec::new();
-    for r in reqs {
-        wire.extend(r.wire());
+    let mut pieces: Vec<usize> = Vec::new(); // absolute cut offsets into `wire`
+    for (i, r) in reqs.iter().enumerate() {
+        let w = r.wire();
+        for c in cut_points(cut, i, &r.h, w.len()) { pieces.push(wire.len() + c); }
+        wire.extend(w);
     }
     let mut ws = s.try_clone().expect("clone");
     let writer = std::thread::spawn(move || {
+        if cut != 0 {
+            let mut at = 0;
+            for (i, c) in pieces.iter().chain(std::iter::once(&wire.len())).enumerate() {
+                if ws.write_all(&wire[at..*c]).is_err() { return false; }
+                at = *c;
+                // a pause after some pieces, so that the server really sees a partial frame
+                if i % 5 == 2 { std::thread::sleep(Duration::from_millis(if i % 35 == 2 { 40 } else { 1 })); }
+            }
+            return true;
+        }
         if chunk == 0 {
             return ws.write_all(&wire).is_ok();
         }
@@ -1046,17 +1121,19 @@ fn run_tcp(ep: &Endpoint, reqs: &[ReqSpec], expect_ids: &[u64], expect_events: u
         }
         true
     });
-    let deadline = Instant::now() + WATCHDOG;
+    let hard = Instant::now() + Duration::from_secs(120);
     // every response must arrive without any further request being sent: the first sentinel goes out only
     // once all expected responses are in (or after a grace period, which is then reported)
-    let grace = Instant::now() + GRACE;
+    let mut written_at: Option<Instant> = None;
     let mut sent_s1 = false;
     let mut buf: Vec<u8> = Vec::new();
     let mut seen_s1 = false;
     let mut seen_s2 = false;
     let mut sent_s2 = false;
+    let mut s1_at: Option<Instant> = None;
     s.set_read_timeout(Some(Duration::from_millis(4))).ok();
     let mut tmp = vec![0u8; 262144];
+    if stall > 0 { std::thread::sleep(Duration::from_millis(stall)); }
     loop {
         while let Some((f, n)) = RawFrame::parse_prefix(&buf) {
             buf.drain(..n);
@@ -1066,8 +1143,13 @@ fn run_tcp(ep: &Endpoint, reqs: &[ReqSpec], expect_ids: &[u64], expect_events: u
             if !read_delay.is_zero() { std::thread::sleep(read_delay); }
         }
         if seen_s2 { break; }
+        if written_at.is_none() && writer.is_finished() { written_at = Some(Instant::now()); }
+        // the watchdog runs from the moment the last request byte was written
+        let deadline = written_at.map(|t| t + WATCHDOG).unwrap_or(hard);
         if !sent_s1 && writer.is_finished() {
             let all = have_all(&out.frames, expect_ids);
+            // the grace period starts when the last request byte was written (slow chunked writes do not eat it)
+            let grace = *written_at.get_or_insert_with(Instant::now) + GRACE;
             if all || Instant::now() > grace {
                 if !all { out.problems.push("response-withheld-until-next-request".into()); }
                 if s.write_all(&sentinel(S1)).is_err() { out.problems.push("write-s1".into()); break; }
@@ -1077,7 +1159,8 @@ fn run_tcp(ep: &Endpoint, reqs: &[ReqSpec], expect_ids: &[u64], expect_events: u
         if seen_s1 && !sent_s2 {
             let all = have_all(&out.frames, expect_ids);
             let quiesced = ep.progress() - base >= expect_events + 1;
-            if (all && quiesced) || Instant::now() > deadline - Duration::from_secs(5) {
+            let since = *s1_at.get_or_insert_with(Instant::now);
+            if (all && quiesced) || since.elapsed() > AFTER_S1 || Instant::now() > deadline - Duration::from_secs(5) {
                 if !all { out.problems.push("missing-response".into()); }
                 if !quiesced { out.problems.push("handlers-not-finished".into()); }
                 if s.write_all(&sentinel(S2)).is_err() { out.problems.push("write-s2".into()); break; }
@@ -1098,10 +1181,12 @@ fn run_tcp(ep: &Endpoint, reqs: &[ReqSpec], expect_ids: &[u64], expect_events: u
     out
 }
 
-fn run_ws(sv: &Servers, ep: &Endpoint, reqs: &[ReqSpec], expect_ids: &[u64], expect_events: u64, read_delay: Duration) -> TransportRun {
+fn run_ws(sv: &Servers, ep: &Endpoint, reqs: &[ReqSpec], expect_ids: &[u64], expect_events: u64, read_delay: Duration, params: SeqParams) -> TransportRun {
+    use tokio_tungstenite::tungstenite::protocol::frame::{coding::{Data, OpCode}, Frame, FrameHeader};
     use tokio_tungstenite::tungstenite::Message as WsMsg;
     let base = ep.progress();
-    let reqs: Vec<(bool, Vec<u8>)> = reqs.iter().map(|r| (r.ping, r.wire())).collect();
+    let stall = params.stall;
+    let reqs: Vec<(u32, Vec<u8>, Vec<usize>)> = reqs.iter().enumerate().map(|(i, r)| { let w = r.wire(); let c = cut_points(params.cut, i, &r.h, w.len()); (r.pings, w, c) }).collect();
     let expect_ids = expect_ids.to_vec();
     sv.rt.block_on(async move {
         let mut out = TransportRun::default();
@@ -1112,9 +1197,22 @@ fn run_ws(sv: &Servers, ep: &Endpoint, reqs: &[ReqSpec], expect_ids: &[u64], exp
         let sent_all2 = sent_all.clone();
         // sender task: all requests (some preceded by a Ping), then each sentinel when the reader asks for it
         let sender = tokio::spawn(async move {
-            for (ping, r) in reqs {
-                if ping && sink.send(WsMsg::Ping(b"hb".to_vec())).await.is_err() { return false; }
-                if sink.send(WsMsg::Binary(r)).await.is_err() { return false; }
+            for (pings, r, cuts) in reqs {
+                for _ in 0..pings {
+                    if sink.send(WsMsg::Ping(b"hb".to_vec())).await.is_err() { return false; }
+                }
+                if cuts.is_empty() {
+                    if sink.send(WsMsg::Binary(r)).await.is_err() { return false; }
+                } else {
+                    // one WebSocket message in fragments: Binary(fin=0), Continue…, Continue(fin=1)
+                    let mut at = 0;
+                    let ends: Vec<usize> = cuts.iter().cloned().chain(std::iter::once(r.len())).collect();
+                    for (k, e) in ends.iter().enumerate() {
+                        let hdr = FrameHeader { is_final: k + 1 == ends.len(), opcode: if k == 0 { OpCode::Data(Data::Binary) } else { OpCode::Data(Data::Continue) }, ..FrameHeader::default() };
+                        if sink.send(WsMsg::Frame(Frame::from_payload(hdr, r[at..*e].to_vec()))).await.is_err() { return false; }
+                        at = *e;
+                    }
+                }
             }
             sent_all2.store(true, std::sync::atomic::Ordering::SeqCst);
             while let Some(id) = s2_rx.recv().await {
@@ -1124,12 +1222,15 @@ fn run_ws(sv: &Servers, ep: &Endpoint, reqs: &[ReqSpec], expect_ids: &[u64], exp
             true
         });
         let deadline = Instant::now() + WATCHDOG;
-        let grace = Instant::now() + GRACE;
+        let mut written_at: Option<Instant> = None;
         let mut sent_s1 = false;
         let (mut seen_s1, mut sent_s2) = (false, false);
+        let mut s1_at: Option<Instant> = None;
+        if stall > 0 { tokio::time::sleep(Duration::from_millis(stall)).await; }
         loop {
             if !sent_s1 && sent_all.load(std::sync::atomic::Ordering::SeqCst) {
                 let all = have_all(&out.frames, &expect_ids);
+                let grace = *written_at.get_or_insert_with(Instant::now) + GRACE;
                 if all || Instant::now() > grace {
                     if !all { out.problems.push("response-withheld-until-next-request".into()); }
                     if s2_tx.send(S1).await.is_err() { out.problems.push("send-s1".into()); break; }
@@ -1139,7 +1240,8 @@ fn run_ws(sv: &Servers, ep: &Endpoint, reqs: &[ReqSpec], expect_ids: &[u64], exp
             if seen_s1 && !sent_s2 {
                 let all = have_all(&out.frames, &expect_ids);
                 let quiesced = ep.progress() - base >= expect_events + 1;
-                if (all && quiesced) || Instant::now() > deadline - Duration::from_secs(5) {
+                let since = *s1_at.get_or_insert_with(Instant::now);
+                if (all && quiesced) || since.elapsed() > AFTER_S1 || Instant::now() > deadline - Duration::from_secs(5) {
                     if !all { out.problems.push("missing-response".into()); }
                     if !quiesced { out.problems.push("handlers-not-finished".into()); }
                     if s2_tx.send(S2).await.is_err() { out.problems.push("send-s2".into()); break; }
@@ -1221,13 +1323,13 @@ struct EpRun<'a> {
     closures: BTreeMap<String, u64>,
 }
 
-fn run_on<'a>(sv: &'a Servers, ep: &'a Endpoint, reqs: &[ReqSpec], expect_ids: &[u64], events_w: u64, events_n: u64, read_delay: Duration, chunk: usize) -> EpRun<'a> {
+fn run_on<'a>(sv: &'a Servers, ep: &'a Endpoint, reqs: &[ReqSpec], expect_ids: &[u64], events_w: u64, events_n: u64, read_delay: Duration, params: SeqParams) -> EpRun<'a> {
     let base_s = ep.counters.started.lock().unwrap().clone();
     let base_c = ep.counters.closures.lock().unwrap().clone();
     let ev = if ep.wrapped { events_w } else { events_n };
     let t = match ep.kind {
-        Kind::Tcp => run_tcp(ep, reqs, expect_ids, ev, read_delay, chunk),
-        Kind::Ws => run_ws(sv, ep, reqs, expect_ids, ev, read_delay),
+        Kind::Tcp => run_tcp(ep, reqs, expect_ids, ev, read_delay, params),
+        Kind::Ws => run_ws(sv, ep, reqs, expect_ids, ev, read_delay, params),
     };
     let delta = |now: BTreeMap<String, u64>, base: &BTreeMap<String, u64>, skip: &str| -> BTreeMap<String, u64> {
         now.iter().filter(|(k, _)| k.as_str() != skip).map(|(k, v)| (k.clone(), v - base.get(k).copied().unwrap_or(0))).filter(|(_, v)| *v > 0).collect()
@@ -1358,23 +1460,25 @@ fn run_sequence(out: &mut Out, sv: &Servers, probe: &Probes, seqno: usize, reqs:
         out.count(&format!("dispatch.route.{}", if r.h.version != 1 { "bad_version" } else if r.h.query_format != 1 { "bad_qfmt" } else if !utf8(&r.query) { "non_utf8" } else if !found { "not_found" } else if off { "offreader" } else { "inline" }));
         out.count(&format!("dispatch.notify.{}", match r.h.notify { 0 => "0", 1 => "1", _ => "other" }));
         if toks.0.starts_with("err:") { out.count(&format!("dispatch.handler_err.{}", toks.0.split(':').nth(1).unwrap())); }
-        op_lines.push(format!("req {} {} {} {} {} {} {} {} {} {} {}{}", idx, r.h.fields(), hex(&r.query), hex(&r.body), found as u8, if off { "o" } else { "i" }, toks.0, toks.1, toks.2, toks.3, kv, if r.ping { " pg=1" } else { "" }));
+        op_lines.push(format!("req {} {} {} {} {} {} {} {} {} {} {}{}", idx, r.h.fields(), hex(&r.query), hex(&r.body), found as u8, if off { "o" } else { "i" }, toks.0, toks.1, toks.2, toks.3, kv, if r.pings > 0 { format!(" pg={}", r.pings) } else { String::new() }));
     }
-    let inv_line = format!("inv {}.inv chunk={} pressure={}", seqno, params.chunk, pressure as u8);
+    let inv_line = format!("inv {}.inv chunk={} pressure={} cut={} stall={}", seqno, params.chunk, pressure as u8, params.cut, params.stall);
     // real servers, all endpoints at once (each has its own server, router and counters)
     let read_delay = if pressure { Duration::from_millis(2) } else { Duration::ZERO };
     let extra_x = !pressure && seqno % 8 == 3 && reqs.len() <= 16;
+    let extra_k = seqno % 8 == 6 || (pressure && seqno % 16 == 15);
     let chosen: Vec<&Endpoint> = sv.eps.iter().filter(|ep| match ep.name {
-        "wsb" => false,
+        "wsb" | "tcps" | "atcps" => false, // scenario-only endpoints
         "wsp" => pressure, // the single-slot WebSocket server is only interesting under pressure (and slow otherwise)
         "ws" => !pressure,
-        "tcpx" => extra_x, // Nagle on: slow, a few short sequences only
+        "tcpx" | "tcpy" => extra_x, // Nagle on: slow, a few short sequences only
+        "tcpz" | "atcpz" | "wsq" => extra_k, // further knob pairs, some sequences
         _ => true,
     }).collect();
     let runs: Vec<EpRun> = std::thread::scope(|sc| {
         let hs: Vec<_> = chosen.iter().map(|ep| {
             let (ids, ep) = (&expect_ids, *ep);
-            sc.spawn(move || run_on(sv, ep, reqs, ids, events_w, events_n, read_delay, params.chunk))
+            sc.spawn(move || run_on(sv, ep, reqs, ids, events_w, events_n, read_delay, params))
         }).collect();
         hs.into_iter().map(|h| h.join().expect("endpoint runner")).collect()
     });
@@ -1462,7 +1566,7 @@ fn run_sequence(out: &mut Out, sv: &Servers, probe: &Probes, seqno: usize, reqs:
                 let base = if gated { ref_of(run.ep.wrapped) } else { 0 };
                 // `tcpx` serves only some sequences, so its registry / struct state lags behind the others'
                 let stateful = matches!(&exps[k], Some((rt, _, _, _)) if matches!(rt.hk, HK::Registry | HK::Struct));
-                if got[i] != got[base] && !(stateful && run.ep.name == "tcpx") { differ.push(run.ep.name); }
+                if got[i] != got[base] && !(stateful && run.ep.partial()) { differ.push(run.ep.name); }
             }
             if !differ.is_empty() {
                 out.oracle_fail(&format!("{}.transports_disagree.{}", pfx, differ.join("+")), &format!("request id {}: the response on {:?} differs from the one on {}", r.h.id, differ, runs[0].ep.name), &all_ops);
@@ -1500,7 +1604,7 @@ fn run_sequence(out: &mut Out, sv: &Servers, probe: &Probes, seqno: usize, reqs:
                 let Some(seen) = run.t.frames.iter().find(|f| f.h.id == r.h.id) else { continue };
                 let ev = if run.ep.wrapped { dispatched } else { 0 };
                 // on a bare router the closure may or may not run; waiting for the response is enough (inline or not)
-                let fresh = match run.ep.kind { Kind::Tcp => run_tcp(run.ep, &one, &[r.h.id], ev, Duration::ZERO, 0), Kind::Ws => run_ws(sv, run.ep, &one, &[r.h.id], ev, Duration::ZERO) };
+                let fresh = match run.ep.kind { Kind::Tcp => run_tcp(run.ep, &one, &[r.h.id], ev, Duration::ZERO, SeqParams::default()), Kind::Ws => run_ws(sv, run.ep, &one, &[r.h.id], ev, Duration::ZERO, SeqParams::default()) };
                 let quiet: Vec<&String> = fresh.problems.iter().filter(|p| *p != "handlers-not-finished").collect();
                 if quiet.is_empty() && fresh.frames.first() != Some(seen) {
                     let mut ops = all_ops.clone();
@@ -1598,12 +1702,12 @@ fn dup_ids(out: &mut Out, sv: &Servers, id: u64, n: usize, seqno: usize) {
     let reqs: Vec<ReqSpec> = (0..n).map(|k| {
         let body = format!("[{}]", k).into_bytes();
         let f = RawFrame::request(id, false, 1, b"/json", 2, &body);
-        ReqSpec { h: f.h, query: b"/json".to_vec(), body, ping: false }
+        ReqSpec { h: f.h, query: b"/json".to_vec(), body, pings: 0 }
     }).collect();
     let want: Vec<Vec<u8>> = (0..n).map(|k| serde_json::to_vec(&json!({"route": "/json", "got": [k]})).unwrap()).collect();
-    for ep in sv.eps.iter().filter(|e| !matches!(e.name, "wsb" | "wsp" | "tcpx")) {
+    for ep in sv.eps.iter().filter(|e| !matches!(e.name, "wsb" | "wsp" | "tcpx" | "tcpy" | "tcps" | "atcps")) {
         let ev = n as u64;
-        let t = match ep.kind { Kind::Tcp => run_tcp(ep, &reqs, &[id], ev, Duration::ZERO, 0), Kind::Ws => run_ws(sv, ep, &reqs, &[id], ev, Duration::ZERO) };
+        let t = match ep.kind { Kind::Tcp => run_tcp(ep, &reqs, &[id], ev, Duration::ZERO, SeqParams::default()), Kind::Ws => run_ws(sv, ep, &reqs, &[id], ev, Duration::ZERO, SeqParams::default()) };
         let got: Vec<Vec<u8>> = t.frames.iter().map(|f| f.body.clone()).collect();
         if !t.problems.is_empty() || got != want || t.frames.iter().any(|f| f.h.id != id || f.h.ec != 0) {
             out.oracle_fail(&format!("dispatch.{}.duplicate_ids", ep.name), &format!("{} requests with id {}: got {} responses {:?} problems {:?}", n, id, t.frames.len(), t.frames.iter().map(|f| (f.h.id, f.h.ec, String::from_utf8_lossy(&f.body).into_owned())).collect::<Vec<_>>(), t.problems), &ops);
@@ -1622,7 +1726,7 @@ fn panic_offreader(out: &mut Out, sv: &Servers, epname: &str, seqno: usize) {
     let ops = vec![format!("panicws {} {}", seqno, epname)];
     let mk = |id: u64, notify: bool, path: &[u8], body: &[u8]| {
         let f = RawFrame::request(id, notify, 1, path, 2, body);
-        ReqSpec { h: f.h, query: path.to_vec(), body: body.to_vec(), ping: false }
+        ReqSpec { h: f.h, query: path.to_vec(), body: body.to_vec(), pings: 0 }
     };
     let b = 940_000u64;
     let reqs = vec![
@@ -1632,7 +1736,7 @@ fn panic_offreader(out: &mut Out, sv: &Servers, epname: &str, seqno: usize) {
     let calm = [b + 1, b + 3, b + 6, b + 7];
     // wrapped: pipeline exits are counted only for handlers that return; bare: closure entries, all seven
     let ev = if ep.wrapped { 4 } else { 7 };
-    let t = run_ws(sv, ep, &reqs, &calm, ev, Duration::ZERO);
+    let t = run_ws(sv, ep, &reqs, &calm, ev, Duration::ZERO, SeqParams::default());
     let ids: Vec<u64> = t.frames.iter().map(|f| f.h.id).collect();
     let count = |id: u64| ids.iter().filter(|x| **x == id).count();
     let pos = |id: u64| ids.iter().position(|x| *x == id);
@@ -1645,6 +1749,180 @@ fn panic_offreader(out: &mut Out, sv: &Servers, epname: &str, seqno: usize) {
     }
 }
 
+/// (l) Off-reader responses that have to be handed to the writer while the outbound queue is full and the peer is not
+/// reading: `m` off-reader requests with ~700 KB responses (several MB in all: more than the socket buffers hold)
+/// and a few inline ones; the client starts reading only after `stall` ms. Every request must still be answered once.
+fn offreader_backpressure(out: &mut Out, sv: &Servers, epname: &str, m: usize, stall: u64, seqno: usize) {
+    let ep = sv.ep(epname);
+    let ops = vec![format!("offfull {} {} {} {}", seqno, epname, m, stall)];
+    let big = format!("\"{}\"", "z".repeat(700_000)).into_bytes();
+    let mut reqs = Vec::new();
+    for k in 0..m {
+        let id = 950_000 + 2 * k as u64;
+        let f = RawFrame::request(id, false, 1, b"/json_b", 2, &big);
+        reqs.push(ReqSpec { h: f.h, query: b"/json_b".to_vec(), body: big.clone(), pings: 0 });
+        let f = RawFrame::request(id + 1, false, 1, b"/json", 2, b"[1]");
+        reqs.push(ReqSpec { h: f.h, query: b"/json".to_vec(), body: b"[1]".to_vec(), pings: 0 });
+    }
+    let ids: Vec<u64> = reqs.iter().map(|r| r.h.id).collect();
+    let t = run_ws(sv, ep, &reqs, &ids, 2 * m as u64, Duration::ZERO, SeqParams { stall, ..SeqParams::default() });
+    let mut got: Vec<u64> = t.frames.iter().map(|f| f.h.id).collect();
+    got.sort();
+    if !t.problems.is_empty() || got != ids {
+        let missing: Vec<u64> = ids.iter().filter(|i| !got.contains(i)).cloned().collect();
+        out.oracle_fail(&format!("dispatch.{}.offreader_response_lost_under_backpressure", epname), &format!("{} off-reader requests with large responses while the client did not read for {} ms: unanswered {:?}, problems {:?}", m, stall, missing, t.problems), &ops);
+    } else {
+        out.count("dispatch.offreader_backpressure.ok");
+    }
+}
+
+/// (i) A sender that stalls in the middle of a frame for longer than the server's configured read timeout (300 ms).
+/// The server may give the connection up; what it must not do is lose or reorder the answers to the requests it had
+/// received in full before, or answer anything twice. With a stall shorter than the timeout everything is answered.
+fn stalled_sender(out: &mut Out, sv: &Servers, epname: &str, k: usize, cut: usize, long: bool, seqno: usize) {
+    let ep = sv.ep(epname);
+    let ops = vec![format!("stall {} {} {} {} {}", seqno, epname, k, cut, long as u8)];
+    let Ok(mut s) = std::net::TcpStream::connect(ep.addr) else { out.count("dispatch.stall.connect_failed"); return };
+    s.set_nodelay(true).ok();
+    let mut wire = Vec::new();
+    for i in 0..k {
+        wire.extend(RawFrame::request(960_000 + i as u64, false, 1, b"/json", 2, format!("[{}]", i).as_bytes()).to_vec());
+    }
+    let last = RawFrame::request(960_000 + k as u64, false, 1, b"/json", 2, b"[\"late\"]").to_vec();
+    let cut = cut.min(last.len() - 1).max(1);
+    wire.extend(&last[..cut]);
+    if s.write_all(&wire).is_err() { out.count("dispatch.stall.connect_failed"); return; }
+    std::thread::sleep(Duration::from_millis(if long { 900 } else { 60 }));
+    let _ = s.write_all(&last[cut..]);
+    let _ = s.write_all(&sentinel(S1));
+    // read until the sentinel's answer, EOF / reset, or 8 s of silence
+    let mut bytes = Vec::new();
+    let mut tmp = [0u8; 65536];
+    s.set_read_timeout(Some(Duration::from_secs(8))).ok();
+    loop {
+        match s.read(&mut tmp) {
+            Ok(0) | Err(_) => break,
+            Ok(n) => bytes.extend_from_slice(&tmp[..n]),
+        }
+        if RawFrame::split_stream(&bytes).0.iter().any(|f| f.h.id == S1) { break; }
+    }
+    let (frames, _tail) = RawFrame::split_stream(&bytes);
+    let ids: Vec<u64> = frames.iter().map(|f| f.h.id).filter(|i| *i != S1).collect();
+    let full: Vec<u64> = (0..k as u64).map(|i| 960_000 + i).collect();
+    let mut all = full.clone();
+    all.push(960_000 + k as u64);
+    let ok = if long { ids == full || ids == all } else { ids == all };
+    if !ok {
+        out.oracle_fail(&format!("dispatch.{}.stalled_sender", epname), &format!("{} whole requests, then a frame cut at byte {} and stalled {}: responses {:?}", k, cut, if long { "past the read timeout" } else { "briefly" }, ids), &ops);
+    } else {
+        out.count(if long { "dispatch.stall.long_ok" } else { "dispatch.stall.short_ok" });
+    }
+}
+
+/// (m) An inline handler that panics on a TCP server takes its connection down. C03 says nothing about that request;
+/// the requests before it were answered and flushed before it was even read, so their responses must have arrived.
+fn tcp_inline_panic(out: &mut Out, sv: &Servers, epname: &str, payload: &str, seqno: usize) {
+    let ep = sv.ep(epname);
+    let ops = vec![format!("tcppanic {} {} {}", seqno, epname, payload)];
+    let Ok(mut s) = std::net::TcpStream::connect(ep.addr) else { out.count("dispatch.tcppanic.connect_failed"); return };
+    let mut wire = Vec::new();
+    wire.extend(RawFrame::request(970_001, false, 1, b"/json", 2, b"[1]").to_vec());
+    wire.extend(RawFrame::request(970_002, false, 1, b"/typed", 2, b"{\"a\":2,\"b\":\"x\"}").to_vec());
+    wire.extend(RawFrame::request(970_003, false, 1, b"/panic", 2, format!("{{\"p\":\"{}\"}}", payload).as_bytes()).to_vec());
+    wire.extend(RawFrame::request(970_004, false, 1, b"/json", 2, b"[4]").to_vec());
+    if s.write_all(&wire).is_err() { out.count("dispatch.tcppanic.connect_failed"); return; }
+    let bytes = net::drain(&mut s, 1 << 20, Duration::from_secs(3));
+    let (frames, _) = RawFrame::split_stream(&bytes);
+    let ids: Vec<u64> = frames.iter().map(|f| f.h.id).collect();
+    if ids.len() < 2 || ids[0] != 970_001 || ids[1] != 970_002 || ids.iter().filter(|i| **i == 970_003).count() > 1 || frames.iter().any(|f| f.h.id == 970_003 && f.h.ec == 0) {
+        out.oracle_fail(&format!("dispatch.{}.panic_loses_earlier_responses", epname), &format!("two ordinary requests, then one whose inline handler panics ({}): responses {:?}", payload, ids), &ops);
+    } else {
+        out.count("dispatch.tcppanic.ok");
+    }
+}
+
+/// (m) Shutdown while a connection is in use. `graceful = false`: `serve_listener_with_shutdown` only stops accepting;
+/// a connection that is already open keeps being served. `graceful = true`: `serve_listener_with_graceful_drain`
+/// cancels the readers; the responses of requests that were dispatched before (client not reading, writer blocked,
+/// queue non-empty) must still be delivered by the drain.
+fn shutdown_midflight(out: &mut Out, sv: &Servers, graceful: bool, n: usize, seqno: usize) {
+    use tokio_tungstenite::tungstenite::Message as WsMsg;
+    let ops = vec![format!("shutdown {} {} {}", seqno, graceful as u8, n)];
+    let c = Counters::default();
+    let r = make_router(&c, false);
+    let (tx, rx) = tokio::sync::oneshot::channel::<()>();
+    let addr = sv.rt.block_on(async {
+        let l = tokio::net::TcpListener::bind("127.0.0.1:0").await.unwrap();
+        let a = l.local_addr().unwrap();
+        tokio::spawn(async move {
+            let s = repe::websocket_server::WebSocketServer::new(r);
+            let sd = async { let _ = rx.await; };
+            if graceful { let _ = s.serve_listener_with_graceful_drain(l, "/repe", sd, Duration::from_secs(15)).await; } else { let _ = s.serve_listener_with_shutdown(l, "/repe", sd).await; }
+        });
+        a
+    });
+    let body = format!("\"{}\"", "g".repeat(if graceful { 700_000 } else { 10 })).into_bytes();
+    let closures = c.clone();
+    let got: Option<Vec<u64>> = sv.rt.block_on(async {
+        let mut ws = ws_connect(addr).await?;
+        let mut ids = Vec::new();
+        for i in 0..n {
+            ws.send(WsMsg::Binary(RawFrame::request(980_000 + i as u64, false, 1, b"/json", 2, &body).to_vec())).await.ok()?;
+        }
+        if graceful {
+            // all n dispatched (their responses are queued or on the way) before the shutdown is signalled
+            let t = Instant::now();
+            while closures.total_closures() < n as u64 && t.elapsed() < Duration::from_secs(10) { tokio::time::sleep(Duration::from_millis(5)).await; }
+            if closures.total_closures() < n as u64 { return None; }
+            let _ = tx.send(());
+            tokio::time::sleep(Duration::from_millis(100)).await;
+        } else {
+            while ids.len() < n {
+                match tokio::time::timeout(Duration::from_secs(8), ws.next()).await { Ok(Some(Ok(WsMsg::Binary(b)))) => ids.push(RawHeader::parse(&b)?.id), Ok(Some(Ok(_))) => {}, _ => return Some(ids) }
+            }
+            let _ = tx.send(());
+            tokio::time::sleep(Duration::from_millis(50)).await;
+            for i in n..2 * n {
+                if ws.send(WsMsg::Binary(RawFrame::request(980_000 + i as u64, false, 1, b"/json", 2, &body).to_vec())).await.is_err() { return Some(ids); }
+            }
+        }
+        let want = if graceful { n } else { 2 * n };
+        while ids.len() < want {
+            match tokio::time::timeout(Duration::from_secs(8), ws.next()).await { Ok(Some(Ok(WsMsg::Binary(b)))) => ids.push(RawHeader::parse(&b)?.id), Ok(Some(Ok(_))) => {}, _ => break }
+        }
+        Some(ids)
+    });
+    let want: Vec<u64> = (0..if graceful { n } else { 2 * n }).map(|i| 980_000 + i as u64).collect();
+    match got {
+        None => out.count("dispatch.shutdown.setup_failed"),
+        Some(ids) if ids != want => out.oracle_fail(if graceful { "dispatch.shutdown.queued_responses_lost_in_drain" } else { "dispatch.shutdown.open_connection_not_served" }, &format!("responses {:?}, expected {:?}", ids, want), &ops),
+        Some(_) => out.count(if graceful { "dispatch.shutdown.drain_ok" } else { "dispatch.shutdown.open_ok" }),
+    }
+}
+
+/// (j) Observer threads: route lookups and `execution()` on the very routers the servers dispatch through, all the
+/// time the sequences run. Every observation must be the registered table's answer.
+fn spawn_observers(sv: &Servers, stop: Arc<std::sync::atomic::AtomicBool>, bad: Arc<Mutex<Vec<String>>>, seen: Arc<std::sync::atomic::AtomicU64>) -> Vec<std::thread::JoinHandle<()>> {
+    let routers: Vec<(&'static str, Router)> = sv.eps.iter().map(|e| (e.name, e.router.clone())).collect();
+    (0..2u64).map(|t| {
+        let (routers, stop, bad, seen) = (routers.clone(), stop.clone(), bad.clone(), seen.clone());
+        std::thread::spawn(move || {
+            let mut r = Rng::new(0xB5E7 + t);
+            let probes: Vec<&str> = EXACT.iter().map(|e| e.path).chain(MOUNT_PATHS.iter().cloned()).chain(["/nope", "/devx", "/regx", "", "/json/"]).collect();
+            while !stop.load(std::sync::atomic::Ordering::Relaxed) {
+                let (name, router) = r.pick(&routers);
+                let p = *r.pick(&probes);
+                let want = expected_route(p);
+                let got = router.get(p);
+                let ok = match (&want, &got) { (None, None) => true, (Some(w), Some(h)) => (h.execution() == repe::Execution::OffReader) == w.blocking, _ => false };
+                if !ok { let mut b = bad.lock().unwrap(); if b.len() < 4 { b.push(format!("{}: Router::get({:?}) observed {} while serving, table says {}", name, p, got.is_some(), want.is_some())); } }
+                seen.fetch_add(1, std::sync::atomic::Ordering::Relaxed);
+                std::thread::sleep(Duration::from_micros(250));
+            }
+        })
+    }).collect()
+}
+
 /// A sequence that keeps outbound queues full: large echoed bodies interleaved with rejected requests
 /// and small inline ones, read slowly by the client.
 fn gen_pressure(r: &mut Rng, base_id: u64) -> Vec<ReqSpec> {
@@ -1652,7 +1930,7 @@ fn gen_pressure(r: &mut Rng, base_id: u64) -> Vec<ReqSpec> {
     let mut v = Vec::new();
     for k in 0..n {
         let id = base_id + k as u64 + 1;
-        let mk = |f: RawFrame| ReqSpec { h: f.h, query: f.query, body: f.body, ping: false };
+        let mk = |f: RawFrame| ReqSpec { h: f.h, query: f.query, body: f.body, pings: 0 };
         let spec = match r.below(6) {
             0 | 1 => {
                 // big echo through an inline JSON route
@@ -1672,6 +1950,76 @@ fn gen_pressure(r: &mut Rng, base_id: u64) -> Vec<ReqSpec> {
             _ => mk(RawFrame::request(id, r.chance(1, 4), 1, b"/json", 2, b"[1,2]")),
         };
         v.push(spec);
+    }
+    v
+}
+
+/// (g) N identical events back to back on one connection, then one ordinary request: the N-th is treated like the
+/// first. Returns the requests and whether the client should stall before reading (long runs against the default
+/// outbound queue of 256).
+fn gen_run(r: &mut Rng, base_id: u64, thorough: bool) -> (Vec<ReqSpec>, u64) {
+    let kind = r.below(16);
+    let mut n = *r.pick(&[1usize, 2, 7, 8, 9, 16, 17, 64, 65, 255, 256, 257]) ;
+    if thorough && r.chance(1, 6) { n = 1000; }
+    // more than 16 concurrent off-reader requests may meet the per-connection cap (C16's subject)
+    if kind == 13 { n = n.min(16); }
+    let mk = |id: u64, notify: bool, path: &[u8], bf: u16, body: &[u8]| { let f = RawFrame::request(id, notify, 1, path, bf, body); ReqSpec { h: f.h, query: path.to_vec(), body: body.to_vec(), pings: 0 } };
+    let mut v = Vec::new();
+    if kind == 14 {
+        // N keep-alives in a row before one request
+        let mut q = mk(base_id + 1, false, b"/json", 2, b"[0]");
+        q.pings = n as u32;
+        v.push(q);
+    } else {
+        for k in 0..n {
+            let id = base_id + 1 + k as u64;
+            let mut q = match kind {
+                0 => mk(id, false, b"/nope", 2, b"{}"),
+                1 => { let mut q = mk(id, false, b"/json", 2, b"{}"); q.h.version = 2; q }
+                2 => { let mut q = mk(id, false, b"/json", 2, b"{}"); q.h.query_format = 2; q }
+                3 => mk(id, false, b"/\xff\xfe", 2, b"{}"),
+                4 => mk(id, true, b"/json", 2, b"[4]"),
+                5 => mk(id, true, b"/nope", 2, b"{}"),
+                6 => mk(id, true, b"/typed", 2, b"{\"a\":"),
+                7 => mk(id, false, b"/typed", 2, b"{\"a\":"),
+                8 => mk(id, false, b"/slice", 2, b"[1.0]"),
+                9 => mk(id, false, b"/json", 2, b"{\"fail\":true}"),
+                10 => mk(id, false, b"/json", 2, b"#mw-err"),
+                11 => mk(id, false, b"/custom", 0, b"!no"),
+                12 => mk(id, false, b"/json", *r.pick(&[1u16, 2, 3]), b""),
+                13 => mk(id, false, b"/json_b", 2, b"[13]"),
+                _ => mk(id, false, b"/typed_beve", 2, b"{\"a\":15,\"b\":\"same\"}"),
+            };
+            if kind == 15 && k % 2 == 1 { q.h.notify = 1; }
+            v.push(q);
+        }
+    }
+    v.push(mk(base_id + 5000, false, b"/json", 2, b"[\"after\"]"));
+    (v, if n >= 255 && r.chance(1, 2) { 300 } else { 0 })
+}
+
+/// (h) frames whose sizes sit just below / at / just above the crate's internal sizes: the 8 KiB `BufReader` /
+/// `BufWriter` of both TCP servers (whole frames of 8191 / 8192 / 8193 bytes, so that later headers straddle the
+/// buffer end), 16 KiB, 64 KiB, queries of 47 / 48 / 49 bytes, struct paths of 15 / 16 / 17 / 21 segments
+/// (`STACK_SEGS` = 16, spill capacity 20), BEVE size-prefix switches at 64 and 16384 elements.
+fn gen_sized(r: &mut Rng, base_id: u64, thorough: bool) -> Vec<ReqSpec> {
+    let mk = |id: u64, path: &[u8], bf: u16, body: Vec<u8>| { let f = RawFrame::request(id, false, 1, path, bf, &body); ReqSpec { h: f.h, query: path.to_vec(), body, pings: 0 } };
+    let mut v = Vec::new();
+    let n = r.range(3, 7);
+    for k in 0..n {
+        let id = base_id + 1 + k;
+        v.push(match r.below(6) {
+            0 | 1 => {
+                // total frame size T: 48 + 5 ("/json") + body, body = a JSON string
+                let t = *r.pick(&[8191usize, 8192, 8193, 16383, 16384, 16385, 65535, 65536, 65537, 8192 - 48, 8192 + 48]);
+                let body = format!("\"{}\"", "s".repeat(t - 48 - 5 - 2)).into_bytes();
+                mk(id, b"/json", 2, body)
+            }
+            2 => { let q = format!("/{}", "q".repeat(*r.pick(&[46usize, 47, 48, 8191 - 48, 8192 - 48]))); mk(id, q.as_bytes(), 2, b"{}".to_vec()) }
+            3 => { let q = format!("/dev{}", "/a".repeat(*r.pick(&[15usize, 16, 17, 20, 21]))); mk(id, q.as_bytes(), 2, Vec::new()) }
+            4 => { let n = if thorough || r.chance(1, 3) { *r.pick(&[16383usize, 16384]) } else { *r.pick(&[63usize, 64, 65]) }; mk(id, b"/slice", 1, enc_f64s(&vec![0.5; n])) }
+            _ => mk(id, b"/typed", 2, b"{\"a\":1,\"b\":\"small\"}".to_vec()),
+        });
     }
     v
 }
@@ -1698,23 +2046,29 @@ fn main() {
                 Some("req") => {
                     let f: Vec<u64> = w[2..13].iter().map(|x| x.parse().unwrap()).collect();
                     let h = RawHeader { length: f[0], spec: f[1] as u16, version: f[2] as u8, notify: f[3] as u8, reserved: f[4] as u32, id: f[5], query_length: f[6], body_length: f[7], query_format: f[8] as u16, body_format: f[9] as u16, ec: f[10] as u32 };
-                    reqs.push(ReqSpec { h, query: unhex(w[13]).unwrap(), body: unhex(w[14]).unwrap(), ping: kv(l, "pg") == Some("1") });
+                    reqs.push(ReqSpec { h, query: unhex(w[13]).unwrap(), body: unhex(w[14]).unwrap(), pings: kv(l, "pg").and_then(|x| x.parse().ok()).unwrap_or(0) });
                 }
                 Some("inv") => {
                     params.chunk = kv(l, "chunk").and_then(|x| x.parse().ok()).unwrap_or(0);
                     params.pressure = kv(l, "pressure") == Some("1");
+                    params.cut = kv(l, "cut").and_then(|x| x.parse().ok()).unwrap_or(0);
+                    params.stall = kv(l, "stall").and_then(|x| x.parse().ok()).unwrap_or(0);
                 }
                 Some("busy") => busy_pool_close(&mut out, &sv, w[2].parse().unwrap(), 0),
                 Some("teardown") => burst_then_garbage(&mut out, &sv, w[2], w[3].parse().unwrap(), w[4].parse().unwrap(), 0),
                 Some("tcpteardown") => tcp_burst_then_garbage(&mut out, &sv, w[2], w[3].parse().unwrap(), 0),
                 Some("dupids") => dup_ids(&mut out, &sv, w[2].parse().unwrap(), w[3].parse().unwrap(), 0),
                 Some("panicws") => panic_offreader(&mut out, &sv, w[2], 0),
+                Some("offfull") => offreader_backpressure(&mut out, &sv, w[2], w[3].parse().unwrap(), w[4].parse().unwrap(), 0),
+                Some("stall") => stalled_sender(&mut out, &sv, w[2], w[3].parse().unwrap(), w[4].parse().unwrap(), w[5] == "1", 0),
+                Some("tcppanic") => tcp_inline_panic(&mut out, &sv, w[2], w[3], 0),
+                Some("shutdown") => shutdown_midflight(&mut out, &sv, w[2] == "1", w[3].parse().unwrap(), 0),
                 Some("probe") | Some("lookup") => {
                     // a probe-level failure: re-run the one request as a sequence of its own
                     let q = unhex(w[1]).unwrap();
                     let (bf, body) = if w.len() >= 4 { (w[2].parse().unwrap(), unhex(w[3]).unwrap()) } else { (2u16, Vec::new()) };
                     let f = RawFrame::request(1, false, 1, &q, bf, &body);
-                    reqs.push(ReqSpec { h: f.h, query: q, body, ping: false });
+                    reqs.push(ReqSpec { h: f.h, query: q, body, pings: 0 });
                 }
                 _ => {}
             }
@@ -1723,28 +2077,68 @@ fn main() {
             run_sequence(&mut out, &sv, &probe, 0, &reqs, params);
         }
     } else {
-        let nseq = if args.thorough() { 1500 } else { 110 };
+        let nseq = if args.thorough() { 1000 } else { 104 };
+        let stop = Arc::new(std::sync::atomic::AtomicBool::new(false));
+        let bad = Arc::new(Mutex::new(Vec::<String>::new()));
+        let seen = Arc::new(std::sync::atomic::AtomicU64::new(0));
+        let observers = spawn_observers(&sv, stop.clone(), bad.clone(), seen.clone());
+        // a broken tree must give its failing input soon: stop after 12 oracle failures, or after 3 sequences /
+        // scenarios that had to wait for something that never came
+        let mut slow_failures = 0;
         for s in 0..nseq {
-            if out.oracle_failures >= 12 {
-                break; // a broken tree: enough failing inputs, do not wait out every watchdog
+            if out.oracle_failures >= 12 || slow_failures >= 3 {
+                break;
             }
-            let len = match rng.below(6) { 0 => 1, 1 => rng.range(2, 4), 2 | 3 => rng.range(5, 16), 4 => rng.range(17, 40), _ => rng.range(41, 64) } as usize;
-            let mut used = HashSet::new();
-            let reqs: Vec<ReqSpec> = (0..len).map(|k| { let id = gen_id(&mut rng, s as u64, k as u64, &mut used); gen_request(&mut rng, id) }).collect();
+            let (fails0, t0) = (out.oracle_failures, Instant::now());
             let pressure = s % 8 == 7;
-            let reqs = if pressure { gen_pressure(&mut rng, (s as u64) * 1000) } else { reqs };
-            let chunk = if pressure || rng.chance(2, 3) { 0 } else { *rng.pick(&[1usize, 7, 48, 49, 1000]) };
-            // byte-at-a-time writes of 70 KiB bodies are slow without adding anything
-            let chunk = if chunk == 1 && reqs.iter().map(|r| r.body.len() + r.query.len()).sum::<usize>() > 20_000 { 49 } else { chunk };
-            run_sequence(&mut out, &sv, &probe, s, &reqs, SeqParams { pressure, chunk });
+            let mut params = SeqParams { pressure, ..SeqParams::default() };
+            let base = (s as u64) * 1000;
+            let reqs: Vec<ReqSpec> = if pressure {
+                if rng.chance(1, 2) { params.stall = 250; }
+                gen_pressure(&mut rng, base)
+            } else if s % 8 == 2 {
+                let (v, stall) = gen_run(&mut rng, base, args.thorough());
+                params.stall = stall;
+                out.count("dispatch.run_sequences");
+                v
+            } else if s % 8 == 4 {
+                out.count("dispatch.sized_sequences");
+                gen_sized(&mut rng, base, args.thorough())
+            } else {
+                let len = match rng.below(6) { 0 => 1, 1 => rng.range(2, 4), 2 | 3 => rng.range(5, 16), 4 => rng.range(17, 40), _ => rng.range(41, 64) } as usize;
+                let mut used = HashSet::new();
+                (0..len).map(|k| { let id = gen_id(&mut rng, s as u64, k as u64, &mut used); gen_request(&mut rng, id) }).collect()
+            };
+            let bytes: usize = reqs.iter().map(|r| r.body.len() + r.query.len()).sum();
+            if !pressure {
+                match rng.below(6) {
+                    0 | 1 => params.chunk = *rng.pick(&[1usize, 7, 48, 49, 1000]),
+                    2 | 3 => params.cut = rng.next() | 1,
+                    _ => {}
+                }
+                // byte-at-a-time writes of large bodies are slow without adding anything (thorough does some)
+                if params.chunk == 1 && bytes > if args.thorough() { 60_000 } else { 20_000 } { params.chunk = 49; }
+            }
+            run_sequence(&mut out, &sv, &probe, s, &reqs, params);
             match s % 16 {
                 5 => { let k = rng.range(3, 8) as usize; busy_pool_close(&mut out, &sv, k, s); }
-                9 => { let k = rng.range(4, 10) as usize; let g = rng.below(4); burst_then_garbage(&mut out, &sv, if s % 32 == 9 { "wsp" } else { "wsn" }, k, g, s); }
-                11 => { let k = rng.range(2, 12) as usize; tcp_burst_then_garbage(&mut out, &sv, *rng.pick(&["tcp", "tcpw", "atcp", "atcpw", "tcpn", "atcpn"]), k, s); }
-                13 => { let id = *rng.pick(&[0u64, 1, 7, u64::MAX, 1 << 63]); let k = rng.range(2, 6) as usize; dup_ids(&mut out, &sv, id, k, s); }
-                3 => panic_offreader(&mut out, &sv, if s % 32 == 3 { "ws" } else { "wsn" }, s),
+                9 => { let k = rng.range(4, 10) as usize; let g = rng.below(4); burst_then_garbage(&mut out, &sv, *rng.pick(&["wsp", "wsn", "wsq"]), k, g, s); }
+                11 => { let k = rng.range(2, 12) as usize; tcp_burst_then_garbage(&mut out, &sv, *rng.pick(&["tcp", "tcpw", "atcp", "atcpw", "tcpn", "atcpn", "tcpz", "atcpz"]), k, s); }
+                13 => { let id = *rng.pick(&[0u64, 1, 7, u64::MAX, 1 << 63]); let k = *rng.pick(&[2usize, 3, 5, 9, 17, 65]); dup_ids(&mut out, &sv, id, k, s); }
+                3 => panic_offreader(&mut out, &sv, *rng.pick(&["ws", "wsn", "wsq"]), s),
+                1 => { let m = rng.range(3, 6) as usize; offreader_backpressure(&mut out, &sv, *rng.pick(&["wsq", "wsp", "wsb", "wsn"]), m, if args.thorough() { *rng.pick(&[400u64, 900]) } else { 350 }, s); }
+                6 => { let long = rng.chance(1, 2); let k = rng.range(0, 5) as usize; let cut = *rng.pick(&[1usize, 8, 47, 48, 49, 53, 56]); stalled_sender(&mut out, &sv, *rng.pick(&["tcps", "atcps"]), k, cut, long, s); }
+                8 => tcp_inline_panic(&mut out, &sv, *rng.pick(&["tcp", "tcpn", "atcp", "atcpn", "tcpw", "atcpw"]), *rng.pick(&["str", "any"]), s),
+                14 => { let g = s % 32 == 14; let n = if g { rng.range(5, 9) } else { rng.range(2, 8) } as usize; shutdown_midflight(&mut out, &sv, g, n, s); }
                 _ => {}
             }
+            if out.oracle_failures > fails0 && t0.elapsed() > Duration::from_secs(8) { slow_failures += 1; }
+        }
+        stop.store(true, std::sync::atomic::Ordering::Relaxed);
+        for h in observers { let _ = h.join(); }
+        out.add("dispatch.observer.router_get", seen.load(std::sync::atomic::Ordering::Relaxed));
+        for b in bad.lock().unwrap().iter() {
+            out.oracle_fail("dispatch.observer.router_get", b, &["observe".to_string()]);
         }
     }
     out.finish();
